@@ -65,6 +65,9 @@ class PropertySpec:
     assumptions: List[str]
     design_ref: str = ""
     sensitivity: Optional[Callable] = None   # thorough tier: () -> list of Variant
+    level_text: str = ""
+    level_note: str = ""
+    technique: str = ""
 
 
 def inst(rule, verdict, fn_or_file, construct, reason, line=0, detail=None) -> Instance:
